@@ -70,19 +70,23 @@ where
           {
             let sctl = sctl_next.clone();
             let scheduler_ctor = scheduler_ctor.clone();
-            *timer.write().unwrap() = Some(
-              observables::interval(dur, move || scheduler_ctor.call(()))
-                .take(1)
-                .subscribe(
-                  move |_| {
-                    sctl.sink_error(RxError::from_error(
-                      std::io::Error::from(std::io::ErrorKind::TimedOut),
-                    ));
-                  },
-                  junk_error!(),
-                  junk_complete!(),
-                ),
-            );
+            let armed = observables::interval(dur, move || scheduler_ctor.call(()))
+              .take(1)
+              .subscribe(
+                move |_| {
+                  sctl.sink_error(RxError::from_error(
+                    std::io::Error::from(std::io::ErrorKind::TimedOut),
+                  ));
+                },
+                junk_error!(),
+                junk_complete!(),
+              );
+            // another thread may have armed a timer meanwhile (items arriving
+            // concurrently): whatever is replaced is cancelled, never orphaned
+            let replaced = timer.write().unwrap().replace(armed);
+            if let Some(replaced) = replaced {
+              replaced.unsubscribe();
+            }
             if !sctl_next.is_subscribed() {
               let timer = timer.write().unwrap().take();
               if let Some(timer) = timer {
